@@ -415,12 +415,12 @@ def gen_nodes(rng, kind):
             # endpoints but must be ignored, and must not hide the live nodes behind them
             for i, n in enumerate(nodes):
                 for g in range(rng.randint(1, 3)):
-                    n["view"].append(view("gone%d" % g, rng.choice(["dead", "refuse"]), [(e, 1) for e in EPS if rng.random() < 0.7],
+                    n["view"].append(view("gone%d" % g, rng.choice(["dead", "refuse", "reset"]), [(e, 1) for e in EPS if rng.random() < 0.7],
                                           rng.choice(["left", "unreachable"])))
         if kind == "failure":
             for i, n in enumerate(nodes):
                 if rng.random() < 0.6:
-                    n["view"].append(view("g%d" % i, rng.choice(["refuse", "dead"]), [(rng.choice(EPS), 1)]))
+                    n["view"].append(view("g%d" % i, rng.choice(["refuse", "dead", "reset"]), [(rng.choice(EPS), 1)]))
     else:
         for i, n in enumerate(nodes):
             vs = []
@@ -434,7 +434,7 @@ def gen_nodes(rng, kind):
                     nid = "stale%d" % i            # an old id of a node that now listens on our own address
                     addr = "node:%d" % i
                 else:
-                    addr = rng.choice(["node:%d" % rng.randrange(k)] * 6 + ["dead", "refuse"])
+                    addr = rng.choice(["node:%d" % rng.randrange(k)] * 6 + ["dead", "refuse", "reset"])
                     if j < k and rng.random() < 0.6:
                         addr = "node:%d" % j
                 ents = [(e, rng.choice([1, 1, 1, 2, 0, -1])) for e in EPS if rng.random() < 0.5]
@@ -612,6 +612,15 @@ def gen_tls_cluster(rng, cid):
     for _ in range(rng.randint(6, 10)):
         reqs.append(hdr_req(rng.choice([0, 0, rng.randrange(nn)]), rng.choice(eps), rng))
     return {"id": cid, "timeout_ms": NORMAL_TIMEOUT_MS, "kind": "consistent", "tls": True, "nodes": nodes, "requests": reqs}
+
+
+def reset_cluster(cid):
+    """n0 believes that a node which will reset the connection after reading the request, and n1, both serve e: whichever it
+    picks, the request goes to ONE of them (a reset after delivery is answered 502, not retried elsewhere)"""
+    nodes = [{"id": "n0", "upstreams": [], "view": [view("gone", "reset", [("e", 1)]), view("n1", "node:1", [("e", 1)])]},
+             {"id": "n1", "upstreams": [up("u1", "e")], "view": []}]
+    return {"id": cid, "timeout_ms": NORMAL_TIMEOUT_MS, "kind": "failure", "nodes": nodes,
+            "requests": [http_req(0, host="e.example.com") for _ in range(12)]}
 
 
 def gen_cluster(rng, cid, profile):
@@ -821,6 +830,9 @@ def monitor_c06(cl, ri, rq, ob):
         return fail("hops", "entry node handler not invoked: %s" % inv)
     if len(ob["up_reqs"]) > 1:
         return fail("amplification", "%d upstream requests for one client request" % len(ob["up_reqs"]))
+    if ob.get("reset_hits", 0) + max(0, sum(inv) - 1) > 1:
+        return fail("amplification", "the request was delivered to %d other node(s) that reset the connection after reading it, and to %d node(s) that ran their handler: one client request, one inter-node request"
+                    % (ob.get("reset_hits", 0), max(0, sum(inv) - 1)))
     ep = addressed(rq)
     if client_forwarded(rq) and sum(inv) != 1:
         return fail("forwarded-again", "a request already marked x-piko-forward: true was forwarded again (invocations %s)" % inv)
@@ -1313,7 +1325,7 @@ def run_property(ctx, pid, nclusters_quick, nhosts):
     nclusters = nclusters_quick if tier == "quick" else nclusters_quick * 15
     profile = PROFILES[pid]
     clusters = corpus() + [gen_dynamic_cluster(random.Random(7 + k), "corpus-dyn-" + sc, sc) for k, sc in enumerate(["reconnect", "twins", "goaway", "flaky"])] \
-        + [gen_tls_cluster(random.Random(77), "corpus-tls")] \
+        + [gen_tls_cluster(random.Random(77), "corpus-tls"), reset_cluster("corpus-reset")] \
         + ([agent_burst_cluster("corpus-agent-burst"), empty_404_cluster("corpus-empty-404", False), empty_404_cluster("corpus-empty-404-b", False),
             empty_404_cluster("corpus-empty-404-agent", True)] if pid == "C08" else []) \
         + [gen_cluster(rng, "g%d" % i, profile) for i in range(nclusters)]
